@@ -27,6 +27,7 @@ pub const P_AFTER_COMMIT: u32 = 104;
 pub const P_BEFORE_DROP: u32 = 105;
 pub const P_AFTER_DROP: u32 = 106;
 pub const P_STEP: u32 = 107;
+pub const P_WAIT: u32 = 108;
 
 pub fn point_code(p: Point) -> u32 {
     match p {
@@ -77,6 +78,7 @@ pub fn point_name(c: u32) -> &'static str {
         105 => "before-drop",
         106 => "after-drop",
         107 => "step",
+        108 => "wait-for-turn",
         _ => "?",
     }
 }
@@ -90,6 +92,8 @@ struct Slot {
     active: AtomicBool,
     points_passed: AtomicU64,
     last_point: AtomicU32,
+    /// scripted scenarios: the worker waits at P_WAIT until the global stage reaches this value (0 = not waiting)
+    wait_stage: AtomicU64,
     /// per-worker log of (point code << 40 | clock) - written only by the worker itself
     log: Vec<AtomicU64>,
     log_len: std::sync::atomic::AtomicUsize,
@@ -110,6 +114,8 @@ pub struct Inner {
     /// ThreadSanitizer runs: the harness must not add synchronisation of its own between the
     /// workers (shared atomics create happens-before edges that would hide races)
     pub quiet: AtomicBool,
+    /// scripted scenarios: index of the next scripted action
+    pub stage: AtomicU64,
 }
 
 thread_local! {
@@ -133,6 +139,7 @@ pub fn global() -> Arc<Inner> {
                         active: AtomicBool::new(false),
                         points_passed: AtomicU64::new(0),
                         last_point: AtomicU32::new(0),
+                        wait_stage: AtomicU64::new(0),
                         log: (0..LOG_CAP).map(|_| AtomicU64::new(0)).collect(),
                         log_len: std::sync::atomic::AtomicUsize::new(0),
                     })
@@ -142,6 +149,7 @@ pub fn global() -> Arc<Inner> {
                 free_max_us: AtomicU64::new(0),
                 hook_mask: AtomicU32::new(u32::MAX),
                 quiet: AtomicBool::new(false),
+                stage: AtomicU64::new(0),
             });
             let h = inner.clone();
             verif_hooks::set_handler(Some(Arc::new(move |p, _w| {
@@ -248,6 +256,35 @@ impl Inner {
         self.at(code);
     }
 
+    /// Scripted scenarios: wait until it is this action's turn (global stage >= idx).
+    pub fn wait_stage(&self, idx: u64) {
+        let id = WORKER.with(|w| w.get());
+        let t0 = std::time::Instant::now();
+        loop {
+            if self.stage.load(Ordering::SeqCst) >= idx {
+                break;
+            }
+            if self.mode.load(Ordering::Acquire) == MODE_BATON {
+                if let Some(id) = id {
+                    self.slots[id].wait_stage.store(idx + 1, Ordering::SeqCst);
+                }
+                self.at(P_WAIT);
+            } else {
+                short_sleep(50);
+            }
+            if t0.elapsed().as_secs() > 15 {
+                break; // never hang the harness on a script that cannot progress
+            }
+        }
+        if let Some(id) = id {
+            self.slots[id].wait_stage.store(0, Ordering::SeqCst);
+        }
+    }
+
+    pub fn bump_stage(&self) {
+        self.stage.fetch_add(1, Ordering::SeqCst);
+    }
+
     /// (point code, clock) pairs logged by worker `i` during the last run
     pub fn hook_log(&self, i: usize) -> Vec<(u32, u64)> {
         let s = &self.slots[i];
@@ -268,8 +305,10 @@ impl Inner {
             s.active.store(false, Ordering::SeqCst);
             s.tid.store(0, Ordering::SeqCst);
             s.last_point.store(0, Ordering::SeqCst);
+            s.wait_stage.store(0, Ordering::SeqCst);
             s.log_len.store(0, Ordering::SeqCst);
         }
+        self.stage.store(0, Ordering::SeqCst);
     }
 }
 
@@ -435,6 +474,7 @@ pub fn run_baton(job: Job, strategy: Strategy, watchdog_ms: u64) -> ExecTrace {
         // 2. who can be released?
         let mut all_done = true;
         let mut enabled: Vec<usize> = Vec::new();
+        let mut waiting_for_turn: Vec<usize> = Vec::new();
         for i in 0..n {
             let s = &g.slots[i];
             if s.finished.load(Ordering::Acquire) {
@@ -443,11 +483,27 @@ pub fn run_baton(job: Job, strategy: Strategy, watchdog_ms: u64) -> ExecTrace {
             all_done = false;
             if s.arrived.load(Ordering::Acquire) != 0 {
                 blocked[i] = false;
-                enabled.push(i);
+                let ws = s.wait_stage.load(Ordering::Acquire);
+                if ws == 0 || g.stage.load(Ordering::SeqCst) + 1 >= ws {
+                    enabled.push(i);
+                } else {
+                    waiting_for_turn.push(i);
+                }
             }
         }
         if all_done {
             break;
+        }
+        if enabled.is_empty() && !waiting_for_turn.is_empty() {
+            // only workers waiting for a scripted turn that cannot come yet are at a point: if nobody
+            // else is on its way (in the kernel or running), let them re-check (their wait has a time-out)
+            let someone_moving = (0..n).any(|i| {
+                let s = &g.slots[i];
+                !s.finished.load(Ordering::Acquire) && s.arrived.load(Ordering::Acquire) == 0
+            });
+            if !someone_moving {
+                enabled = waiting_for_turn.clone();
+            }
         }
         if enabled.is_empty() {
             // nobody is at a point: either a previously blocked worker is on its way to one, or
